@@ -591,6 +591,11 @@ class ModuleVistor(NodeVisitor):
         if not isinstance(obj, model.Attribute):
             return
         
+        if obj.kind is None:
+            # The attribute was created from a type field (i.e. "@type target:") of the
+            # module docstring, it's a variable since it's assigned here.
+            obj.kind = model.DocumentableKind.VARIABLE
+
         self._setAttributeAnnotation(obj, annotation)
         
         obj.setLineNumber(lineno)
